@@ -79,6 +79,22 @@ theorem aliveCount_set (gs : List Gor) (g : Nat) (x : Gor) (h : g < gs.length) :
     intro hh; apply List.countP_pos_iff.mpr; exact ⟨gs[g], List.getElem_mem h, by simp [hh]⟩
   cases h1 : gs[g].exit <;> cases h2 : x.exit <;> simp <;> have := hpos h1 <;> omega
 
+theorem awake_wake (gs : List Gor) (g : Nat) (x : Gor) (h : g < gs.length)
+    (h1 : (gs.getD g dfltGor).asleep = true) (h2 : x.asleep = false) : awakeCount (gs.set g x) = awakeCount gs + 1 := by
+  have := awakeCount_set gs g x h; rw [h1, h2] at this; simpa using this
+theorem awake_sleep (gs : List Gor) (g : Nat) (x : Gor) (h : g < gs.length)
+    (h1 : (gs.getD g dfltGor).asleep = false) (h2 : x.asleep = true) : awakeCount (gs.set g x) + 1 = awakeCount gs := by
+  have := awakeCount_set gs g x h; rw [h1, h2] at this; simpa using this
+theorem awake_same (gs : List Gor) (g : Nat) (x : Gor) (h : g < gs.length)
+    (h1 : x.asleep = (gs.getD g dfltGor).asleep) : awakeCount (gs.set g x) = awakeCount gs := by
+  have := awakeCount_set gs g x h; rw [h1] at this; omega
+theorem alive_same (gs : List Gor) (g : Nat) (x : Gor) (h : g < gs.length)
+    (h1 : x.exit = (gs.getD g dfltGor).exit) : aliveCount (gs.set g x) = aliveCount gs := by
+  have := aliveCount_set gs g x h; rw [h1] at this; omega
+theorem alive_exit (gs : List Gor) (g : Nat) (x : Gor) (h : g < gs.length)
+    (h1 : (gs.getD g dfltGor).exit = false) (h2 : x.exit = true) : aliveCount (gs.set g x) + 1 = aliveCount gs := by
+  have := aliveCount_set gs g x h; rw [h1, h2] at this; simpa using this
+
 /-! ### entries -/
 
 theorem entsC_set (cs : List Chan) (c k : Nat) (snd : Bool) (x : Chan) :
@@ -245,7 +261,7 @@ theorem GInv.wake {s : State} (h : GInv s) (g : Nat) (w : Wake) (cases : List Ca
                              gs := s.gs.set g { getG s g with wake := w, asleep := false },
                              awake := s.awake + 1, scheduled := s.scheduled ++ [g] } g
       = { getG s g with wake := w, asleep := false } := by
-    simp [getG_def, getD_setG, hlt]
+    simp [getG_def, hlt]
   refine ⟨?_, ?_, ?_, ?_, ?_, ?_, ?_⟩
   · intro k snd e he
     have hne := hclr k snd e he
@@ -275,17 +291,679 @@ theorem GInv.wake {s : State} (h : GInv s) (g : Nat) (w : Wake) (cases : List Ca
     rcases List.mem_append.mp hm with hm | hm
     · exact this.2.2.2 hm
     · exact hne (by simpa using hm)
-  · have := awakeCount_set s.gs g { getG s g with wake := w, asleep := false } hlt
-    rw [← getG_def, hasleep] at this
-    simp only [if_true, Bool.false_eq_true, if_false] at this
-    have h0 := h.awake
-    show s.awake + 1 = ((awakeCount (s.gs.set g { getG s g with wake := w, asleep := false }) + userTimers s.timers : Nat) : Int)
-    omega
-  · have := aliveCount_set s.gs g { getG s g with wake := w, asleep := false } hlt
-    rw [← getG_def] at this
-    simp only [halive, Bool.false_eq_true, if_false] at this
-    have h0 := h.total
-    show s.total = ((aliveCount (s.gs.set g { getG s g with wake := w, asleep := false }) : Nat) : Int)
-    omega
+  · show s.awake + 1 = ((awakeCount (s.gs.set g { getG s g with wake := w, asleep := false }) + userTimers s.timers : Nat) : Int)
+    rw [awake_wake s.gs g { getG s g with wake := w, asleep := false } hlt hasleep rfl, h.awake]; omega
+  · show s.total = ((aliveCount (s.gs.set g { getG s g with wake := w, asleep := false }) : Nat) : Int)
+    rw [alive_same s.gs g { getG s g with wake := w, asleep := false } hlt rfl, h.total]
+
+/-- the head entry `e` of queue (k, snd) is shifted off and called -/
+theorem GInv.fire {s : State} (h : GInv s) (k : Nat) (snd : Bool) (e : Entry) (rest : List Entry)
+    (hq : ents s k snd = e :: rest) (cs1 : List Chan)
+    (h1 : entsC cs1 k snd = rest)
+    (h2 : ∀ k' snd', ¬(k' = k ∧ snd' = snd) → entsC cs1 k' snd' = ents s k' snd') (w : Wake) :
+    GInv (wakeG { s with chans := cs1 } e.gid w (match e.sel with | none => [] | some _ => selectCases s e.gid)) := by
+  have hsub : ∀ k' snd', (entsC cs1 k' snd').Sublist (ents s k' snd') := by
+    intro k' snd'
+    by_cases hh : k' = k ∧ snd' = snd
+    · rw [hh.1, hh.2, h1, hq]; exact List.sublist_cons_self _ _
+    · rw [h2 k' snd' hh]; exact List.Sublist.refl _
+  have hs1 : GInv { s with chans := cs1 } := h.chans_sub cs1 hsub
+  have ho := h.own k snd e (by rw [hq]; simp)
+  apply hs1.wake e.gid w _ ho.lt ho.asleep ho.alive
+  intro k' snd' e' he' hg'
+  have he0 : e' ∈ ents s k' snd' := (hsub k' snd').subset he'
+  have ho' := h.own k' snd' e' he0
+  have hm := ho.mtch
+  have hm' := ho'.mtch
+  rw [hg'] at hm'
+  cases hsel : e.sel with
+  | none =>
+    exfalso
+    -- a plain entry: the goroutine has exactly this one entry
+    have hsame : k' = k ∧ snd' = snd ∧ e'.sel = none := by
+      cases hb : (getG s e.gid).blocked with
+      | none => simp [Match, hb] at hm
+      | some b =>
+        cases b with
+        | send c v =>
+          simp only [Match, hb, hsel] at hm
+          cases hs' : e'.sel with
+          | none => simp only [Match, hb, hs'] at hm'; exact ⟨hm'.2.1 ▸ hm.2.1.symm ▸ rfl, hm'.1.trans hm.1.symm, rfl⟩
+          | some j => simp [Match, hb, hs'] at hm'
+        | recv c =>
+          simp only [Match, hb, hsel] at hm
+          cases hs' : e'.sel with
+          | none => simp only [Match, hb, hs'] at hm'; exact ⟨hm'.2 ▸ hm.2.symm ▸ rfl, hm'.1.trans hm.1.symm, rfl⟩
+          | some j => simp [Match, hb, hs'] at hm'
+        | select cs => simp [Match, hb, hsel] at hm
+    obtain ⟨hk, hsn, hs'⟩ := hsame
+    subst hk; subst hsn
+    have he' : e' ∈ entsC cs1 k' snd' := he'
+    rw [h1] at he'
+    have hnd := h.nodup k' snd'
+    rw [hq, List.map_cons, List.nodup_cons] at hnd
+    apply hnd.1
+    have : key e = key e' := by unfold key; rw [hg', hsel, hs']
+    rw [this]; exact List.mem_map_of_mem he'
+  | some i =>
+    simp only
+    cases hb : (getG s e.gid).blocked with
+    | none => simp [Match, hb] at hm
+    | some b =>
+      cases b with
+      | send c v => simp [Match, hb, hsel] at hm
+      | recv c => simp [Match, hb, hsel] at hm
+      | select cs =>
+        have hsc : selectCases s e.gid = cs := by simp [selectCases, hb]
+        rw [hsc]
+        cases hs' : e'.sel with
+        | none => simp [Match, hb, hs'] at hm'
+        | some j => simp only [Match, hb, hs'] at hm'; exact ⟨j, rfl, hm'⟩
+
+/-! ### a goroutine goes to sleep / exits -/
+
+/-- the loop test after a goroutine handed control back -/
+def loopTail (u : State) : State := if u.scheduled.isEmpty then endLoop u else u
+
+theorem userTimers_endLoop (ts : List (Nat × TimerKind)) (id : Nat) :
+    userTimers (ts.filter fun t => !(t.1 == id && t.2 == TimerKind.runSched)) = userTimers ts := by
+  unfold userTimers
+  rw [List.countP_filter]
+  congr 1; funext t
+  cases h : t.2 <;> simp [h]
+
+theorem GInv.endLoop' {u : State} (h : GInv u) : GInv (GV.Sched.endLoop u) where
+  own := fun k snd e he => by
+    have := h.own k snd e he
+    exact ⟨this.lt, this.asleep, this.alive, this.mtch⟩
+  nodup := h.nodup
+  sched := h.sched
+  schedNodup := h.schedNodup
+  cur := h.cur
+  awake := by
+    show u.awake = ((awakeCount u.gs + userTimers (u.timers.filter fun t => !(t.1 == u.loopTimer && t.2 == TimerKind.runSched)) : Nat) : Int)
+    rw [userTimers_endLoop]; exact h.awake
+  total := h.total
+
+theorem GInv.tail {u : State} (h : GInv u) : GInv (loopTail u) := by
+  unfold loopTail; split
+  · exact h.endLoop'
+  · exact h
+
+/-- the report of goroutines.js:153-158 -/
+def deadlocksAfter (t : State) : Nat :=
+  if !t.mainFinished && t.awake - 1 == 0 then t.deadlocks + 1 else t.deadlocks
+
+theorem endSlice_sleep (t : State) (g : Nat) (hlt : g < t.gs.length) (he : (getG t g).exit = false)
+    (ha : (getG t g).asleep = true) :
+    endSlice t g = loopTail { t with cur := none, awake := t.awake - 1, deadlocks := deadlocksAfter t } := by
+  unfold endSlice loopTail deadlocksAfter
+  simp only [he, Bool.false_eq_true, if_false]
+  have : (getG { t with cur := none } g).asleep = true := ha
+  simp only [this, if_true]
+
+theorem endSlice_exit (t : State) (g : Nat) (hlt : g < t.gs.length) (he : (getG t g).exit = true) :
+    endSlice t g = loopTail { t with cur := none, gs := t.gs.set g { getG t g with asleep := true },
+                                     total := t.total - 1, awake := t.awake - 1, deadlocks := deadlocksAfter t } := by
+  have he' : t.gs[g].exit = true := by rw [← getD_eq_getElem t.gs g hlt]; exact he
+  unfold endSlice loopTail deadlocksAfter
+  simp [getG_def, setG, he', hlt]
+
+theorem getG_set_ne' (gs : List Gor) (g g' : Nat) (x : Gor) (h : g' ≠ g) :
+    (gs.set g x).getD g' dfltGor = gs.getD g' dfltGor := by
+  rw [getD_setG]; simp [Ne.symm h]
+
+/-- the running goroutine `g` registers the entries of operation `b` and goes to sleep -/
+theorem GInv.block {s : State} (h : GInv s) (g : Nat) (hc : s.cur = some g) (b : Blocked) (cs' : List Chan)
+    (hnew : ∀ k snd e, e ∈ entsC cs' k snd → e ∈ ents s k snd ∨ (e.gid = g ∧ Match (some b) k snd e))
+    (hnd : ∀ k snd, ((entsC cs' k snd).map key).Nodup) :
+    GInv (block { s with chans := cs' } g b) := by
+  obtain ⟨hlt, hawake, halive, hns⟩ := h.cur g hc
+  have heq : ∃ d, GV.Sched.block { s with chans := cs' } g b
+      = loopTail { s with chans := cs', gs := s.gs.set g { getG s g with asleep := true, blocked := some b },
+                          cur := none, awake := s.awake - 1, deadlocks := d } := by
+    unfold GV.Sched.block
+    have hx : getG (setG { s with chans := cs' } g { getG { s with chans := cs' } g with asleep := true, blocked := some b }) g
+        = { getG s g with asleep := true, blocked := some b } := by
+      simp [getG_def, setG, hlt]
+    rw [endSlice_sleep _ g (by simpa [setG] using hlt) (by rw [hx]; exact halive) (by rw [hx])]
+    exact ⟨_, rfl⟩
+  obtain ⟨d, heq⟩ := heq
+  rw [heq]
+  apply GInv.tail
+  refine ⟨?_, ?_, ?_, ?_, ?_, ?_, ?_⟩
+  · intro k snd e he
+    rcases hnew k snd e he with hold | ⟨hg, hm⟩
+    · have ho := h.own k snd e hold
+      have hne : e.gid ≠ g := by intro e'; have hh := ho.asleep; rw [e', hawake] at hh; cases hh
+      have hgg : (s.gs.set g { getG s g with asleep := true, blocked := some b }).getD e.gid dfltGor = getG s e.gid :=
+        getG_set_ne' _ _ _ _ hne
+      exact ⟨by simpa [setG] using ho.lt, by show ((s.gs.set g _).getD e.gid dfltGor).asleep = true; rw [hgg]; exact ho.asleep,
+             by show ((s.gs.set g _).getD e.gid dfltGor).exit = false; rw [hgg]; exact ho.alive,
+             by show Match ((s.gs.set g _).getD e.gid dfltGor).blocked k snd e; rw [hgg]; exact ho.mtch⟩
+    · have hgg : (s.gs.set g { getG s g with asleep := true, blocked := some b }).getD e.gid dfltGor
+          = { getG s g with asleep := true, blocked := some b } := by rw [hg, getD_setG]; simp [hlt]
+      exact ⟨by simpa [setG, hg] using hlt, by show ((s.gs.set g _).getD e.gid dfltGor).asleep = true; rw [hgg],
+             by show ((s.gs.set g _).getD e.gid dfltGor).exit = false; rw [hgg]; exact halive,
+             by show Match ((s.gs.set g _).getD e.gid dfltGor).blocked k snd e; rw [hgg]; exact hm⟩
+  · exact hnd
+  · intro g' hg'
+    have := h.sched g' hg'
+    have hne : g' ≠ g := fun e => hns (e ▸ hg')
+    have hgg : (s.gs.set g { getG s g with asleep := true, blocked := some b }).getD g' dfltGor = getG s g' :=
+      getG_set_ne' _ _ _ _ hne
+    exact ⟨by simpa [setG] using this.1, by show ((s.gs.set g _).getD g' dfltGor).asleep = false; rw [hgg]; exact this.2.1,
+           by show ((s.gs.set g _).getD g' dfltGor).exit = false; rw [hgg]; exact this.2.2⟩
+  · exact h.schedNodup
+  · intro g' hcur; cases hcur
+  · show s.awake - 1 = ((awakeCount (s.gs.set g { getG s g with asleep := true, blocked := some b }) + userTimers s.timers : Nat) : Int)
+    have := awake_sleep s.gs g { getG s g with asleep := true, blocked := some b } hlt hawake rfl
+    rw [h.awake]; omega
+  · show s.total = ((aliveCount (s.gs.set g { getG s g with asleep := true, blocked := some b }) : Nat) : Int)
+    rw [alive_same s.gs g { getG s g with asleep := true, blocked := some b } hlt rfl, h.total]
+
+/-- frame: the goroutine table changes only at `g`, which owns no queue entry and is not scheduled -/
+theorem own_frame {s : State} (h : GInv s) (g : Nat) (x : Gor) (hawake : (getG s g).asleep = false)
+    (k : Nat) (snd : Bool) (e : Entry) (he : e ∈ ents s k snd) :
+    e.gid < (s.gs.set g x).length ∧ ((s.gs.set g x).getD e.gid dfltGor).asleep = true ∧
+    ((s.gs.set g x).getD e.gid dfltGor).exit = false ∧ Match ((s.gs.set g x).getD e.gid dfltGor).blocked k snd e := by
+  have ho := h.own k snd e he
+  have hne : e.gid ≠ g := by intro e'; have hh := ho.asleep; rw [e', hawake] at hh; cases hh
+  rw [getG_set_ne' _ _ _ _ hne]
+  exact ⟨by simpa using ho.lt, ho.asleep, ho.alive, ho.mtch⟩
+
+theorem GInv.exit {s : State} (h : GInv s) (g : Nat) (hc : s.cur = some g) :
+    GInv (endSlice (setG s g { getG s g with exit := true }) g) := by
+  obtain ⟨hlt, hawake, halive, hns⟩ := h.cur g hc
+  have heq : ∃ d, endSlice (setG s g { getG s g with exit := true }) g
+      = loopTail { s with gs := s.gs.set g { getG s g with exit := true, asleep := true },
+                          cur := none, total := s.total - 1, awake := s.awake - 1, deadlocks := d } := by
+    have hx : getG (setG s g { getG s g with exit := true }) g = { getG s g with exit := true } := by
+      simp [getG_def, setG, hlt]
+    rw [endSlice_exit _ g (by simpa [setG] using hlt) (by rw [hx])]
+    refine ⟨deadlocksAfter (setG s g { getG s g with exit := true }), ?_⟩
+    rw [hx]; simp [setG, List.set_set]
+  obtain ⟨d, heq⟩ := heq
+  rw [heq]
+  apply GInv.tail
+  refine ⟨?_, h.nodup, ?_, h.schedNodup, ?_, ?_, ?_⟩
+  · intro k snd e he
+    have := own_frame h g { getG s g with exit := true, asleep := true } hawake k snd e he
+    exact ⟨this.1, this.2.1, this.2.2.1, this.2.2.2⟩
+  · intro g' hg'
+    have := h.sched g' hg'
+    have hne : g' ≠ g := fun e => hns (e ▸ hg')
+    have hgg := getG_set_ne' s.gs g g' { getG s g with exit := true, asleep := true } hne
+    exact ⟨by simpa using this.1, by show ((s.gs.set g _).getD g' dfltGor).asleep = false; rw [hgg]; exact this.2.1,
+           by show ((s.gs.set g _).getD g' dfltGor).exit = false; rw [hgg]; exact this.2.2⟩
+  · intro g' hcur; cases hcur
+  · show s.awake - 1 = ((awakeCount (s.gs.set g { getG s g with exit := true, asleep := true }) + userTimers s.timers : Nat) : Int)
+    have := awake_sleep s.gs g { getG s g with exit := true, asleep := true } hlt hawake rfl
+    rw [h.awake]; omega
+  · show s.total - 1 = ((aliveCount (s.gs.set g { getG s g with exit := true, asleep := true }) : Nat) : Int)
+    have := alive_exit s.gs g { getG s g with exit := true, asleep := true } hlt halive rfl
+    rw [h.total]; omega
+
+/-- the scheduler runs the head of `$scheduled` -/
+theorem GInv.runHead {s : State} (h : GInv s) (g : Nat) (rest : List Nat) (hs : s.scheduled = g :: rest)
+    (hcur : s.cur = none) : GInv (GV.Sched.runHead s g rest).1 := by
+  have hg := h.sched g (by rw [hs]; simp)
+  have hnd := h.schedNodup; rw [hs, List.nodup_cons] at hnd
+  show GInv { setG s g { getG s g with wake := .none, blocked := none } with scheduled := rest, cur := some g }
+  refine ⟨?_, h.nodup, ?_, hnd.2, ?_, ?_, ?_⟩
+  · intro k snd e he
+    have := own_frame h g { getG s g with wake := .none, blocked := none } hg.2.1 k snd e he
+    exact ⟨this.1, this.2.1, this.2.2.1, this.2.2.2⟩
+  · intro g' hg'
+    have := h.sched g' (by rw [hs]; simp [hg'])
+    have hne : g' ≠ g := fun e => hnd.1 (e ▸ hg')
+    have hgg := getG_set_ne' s.gs g g' { getG s g with wake := .none, blocked := none } hne
+    exact ⟨by simpa [setG] using this.1, by show ((s.gs.set g _).getD g' dfltGor).asleep = false; rw [hgg]; exact this.2.1,
+           by show ((s.gs.set g _).getD g' dfltGor).exit = false; rw [hgg]; exact this.2.2⟩
+  · intro g' hc
+    have : g' = g := by simpa using hc.symm
+    subst this
+    have hgg : (s.gs.set g' { getG s g' with wake := .none, blocked := none }).getD g' dfltGor
+        = { getG s g' with wake := .none, blocked := none } := by rw [getD_setG]; simp [hg.1]
+    exact ⟨by simpa [setG] using hg.1, by show ((s.gs.set g' _).getD g' dfltGor).asleep = false; rw [hgg]; exact hg.2.1,
+           by show ((s.gs.set g' _).getD g' dfltGor).exit = false; rw [hgg]; exact hg.2.2, hnd.1⟩
+  · show s.awake = ((awakeCount (s.gs.set g { getG s g with wake := .none, blocked := none }) + userTimers s.timers : Nat) : Int)
+    rw [awake_same s.gs g { getG s g with wake := .none, blocked := none } hg.1 rfl]; exact h.awake
+  · show s.total = ((aliveCount (s.gs.set g { getG s g with wake := .none, blocked := none }) : Nat) : Int)
+    rw [alive_same s.gs g { getG s g with wake := .none, blocked := none } hg.1 rfl]; exact h.total
+
+theorem userTimers_append_runSched (ts : List (Nat × TimerKind)) (id : Nat) :
+    userTimers (ts ++ [(id, TimerKind.runSched)]) = userTimers ts := by
+  unfold userTimers; rw [List.countP_append]; simp
+
+theorem userTimers_append_close (ts : List (Nat × TimerKind)) (id c : Nat) :
+    userTimers (ts ++ [(id, TimerKind.closeChan c)]) = userTimers ts + 1 := by
+  unfold userTimers; rw [List.countP_append]; simp
+
+/-- only the timer list / loop flags change, user timers are kept -/
+theorem GInv.timers {s : State} (h : GInv s) (ts : List (Nat × TimerKind)) (nt lt : Nat) (il : Bool)
+    (hu : userTimers ts = userTimers s.timers) :
+    GInv { s with timers := ts, nextTimer := nt, loopTimer := lt, inLoop := il } where
+  own := fun k snd e he => by
+    have := h.own k snd e he
+    exact ⟨this.lt, this.asleep, this.alive, this.mtch⟩
+  nodup := h.nodup
+  sched := h.sched
+  schedNodup := h.schedNodup
+  cur := h.cur
+  awake := by show s.awake = ((awakeCount s.gs + userTimers ts : Nat) : Int); rw [hu]; exact h.awake
+  total := h.total
+
+theorem GInv.enterLoop {s : State} (h : GInv s) (hcur : s.cur = none) : GInv (GV.Sched.enterLoop s).1 := by
+  unfold GV.Sched.enterLoop
+  simp only
+  have h1 := h.timers (s.timers ++ [(s.nextTimer, TimerKind.runSched)]) (s.nextTimer + 1) s.nextTimer true
+    (userTimers_append_runSched _ _)
+  split
+  · exact h1.endLoop'
+  · next g rest hs => exact h1.runHead g rest hs hcur
+
+theorem getD_append_left (gs : List Gor) (x : Gor) (i : Nat) (h : i < gs.length) :
+    (gs ++ [x]).getD i dfltGor = gs.getD i dfltGor := by
+  simp [List.getD_eq_getElem?_getD, List.getElem?_append_left h]
+
+theorem GInv.goNew {s : State} (h : GInv s) : GInv (GV.Sched.goNew s) := by
+  unfold GV.Sched.goNew
+  refine ⟨?_, h.nodup, ?_, ?_, ?_, ?_, ?_⟩
+  · intro k snd e he
+    have ho := h.own k snd e he
+    have hg : (s.gs ++ [dfltGor]).getD e.gid dfltGor = getG s e.gid := getD_append_left _ _ _ ho.lt
+    exact ⟨by simp; have := ho.lt; omega, by show ((s.gs ++ [dfltGor]).getD e.gid dfltGor).asleep = true; rw [hg]; exact ho.asleep,
+           by show ((s.gs ++ [dfltGor]).getD e.gid dfltGor).exit = false; rw [hg]; exact ho.alive,
+           by show Match ((s.gs ++ [dfltGor]).getD e.gid dfltGor).blocked k snd e; rw [hg]; exact ho.mtch⟩
+  · intro g' hg'
+    rcases List.mem_append.mp hg' with hm | hm
+    · have := h.sched g' hm
+      have hg : (s.gs ++ [dfltGor]).getD g' dfltGor = getG s g' := getD_append_left _ _ _ this.1
+      exact ⟨by simp; omega, by show ((s.gs ++ [dfltGor]).getD g' dfltGor).asleep = false; rw [hg]; exact this.2.1,
+             by show ((s.gs ++ [dfltGor]).getD g' dfltGor).exit = false; rw [hg]; exact this.2.2⟩
+    · have : g' = s.gs.length := by simpa using hm
+      subst this
+      have hg : (s.gs ++ [dfltGor]).getD s.gs.length dfltGor = dfltGor := by simp [List.getD_eq_getElem?_getD]
+      exact ⟨by simp, by show ((s.gs ++ [dfltGor]).getD s.gs.length dfltGor).asleep = false; rw [hg]; rfl,
+             by show ((s.gs ++ [dfltGor]).getD s.gs.length dfltGor).exit = false; rw [hg]; rfl⟩
+  · exact List.nodup_append.mpr ⟨h.schedNodup, by simp, fun a ha b hb => by
+      have : b = s.gs.length := by simpa using hb
+      subst this; have := (h.sched a ha).1; omega⟩
+  · intro g' hc
+    have := h.cur g' hc
+    have hg : (s.gs ++ [dfltGor]).getD g' dfltGor = getG s g' := getD_append_left _ _ _ this.1
+    refine ⟨by simp; omega, by show ((s.gs ++ [dfltGor]).getD g' dfltGor).asleep = false; rw [hg]; exact this.2.1,
+           by show ((s.gs ++ [dfltGor]).getD g' dfltGor).exit = false; rw [hg]; exact this.2.2.1, ?_⟩
+    intro hm
+    rcases List.mem_append.mp hm with hm | hm
+    · exact this.2.2.2 hm
+    · have : g' = s.gs.length := by simpa using hm
+      omega
+  · show s.awake + 1 = ((awakeCount (s.gs ++ [dfltGor]) + userTimers s.timers : Nat) : Int)
+    have : awakeCount (s.gs ++ [dfltGor]) = awakeCount s.gs + 1 := by unfold awakeCount; rw [List.countP_append]; simp [dfltGor]
+    rw [this, h.awake]; omega
+  · show s.total + 1 = ((aliveCount (s.gs ++ [dfltGor]) : Nat) : Int)
+    have : aliveCount (s.gs ++ [dfltGor]) = aliveCount s.gs + 1 := by unfold aliveCount; rw [List.countP_append]; simp [dfltGor]
+    rw [this, h.total]; omega
+
+theorem entsC_append (cs : List Chan) (cap k : Nat) (snd : Bool) :
+    entsC (cs ++ [Chan.make cap]) k snd = entsC cs k snd := by
+  unfold entsC
+  simp only [List.getD_eq_getElem?_getD]
+  by_cases h1 : k < cs.length
+  · rw [List.getElem?_append_left h1]
+  · by_cases h2 : k = cs.length
+    · subst h2; simp [Chan.make, Chan.nil]
+    · rw [List.getElem?_eq_none (by simp; omega), List.getElem?_eq_none (by omega)]
+
+theorem GInv.makechan {s : State} (h : GInv s) (cap : Nat) : GInv { s with chans := s.chans ++ [Chan.make cap] } :=
+  h.chans_sub _ (fun k snd => by rw [entsC_append]; exact List.Sublist.refl _)
+
+/-- `$setTimeout` goroutines.js:208-214 -/
+theorem GInv.after {s : State} (h : GInv s) (c : Nat) :
+    GInv { s with awake := s.awake + 1, timers := s.timers ++ [(s.nextTimer, TimerKind.closeChan c)], nextTimer := s.nextTimer + 1 } where
+  own := fun k snd e he => by
+    have := h.own k snd e he
+    exact ⟨this.lt, this.asleep, this.alive, this.mtch⟩
+  nodup := h.nodup
+  sched := h.sched
+  schedNodup := h.schedNodup
+  cur := h.cur
+  awake := by
+    show s.awake + 1 = ((awakeCount s.gs + userTimers (s.timers ++ [(s.nextTimer, TimerKind.closeChan c)]) : Nat) : Int)
+    rw [userTimers_append_close, h.awake]; omega
+  total := h.total
+
+theorem countP_erase {α} [BEq α] [LawfulBEq α] (p : α → Bool) (a : α) : ∀ (l : List α), a ∈ l →
+    List.countP p (l.erase a) + (if p a then 1 else 0) = List.countP p l := by
+  intro l; induction l with
+  | nil => intro h; cases h
+  | cons b t ih =>
+    intro h
+    by_cases hb : b = a
+    · subst hb; simp [List.countP_cons]
+    · have hm : a ∈ t := by rcases List.mem_cons.mp h with h | h; exact absurd h.symm hb; exact h
+      rw [List.erase_cons_tail (by simpa using hb), List.countP_cons, List.countP_cons]
+      have := ih hm; omega
+
+/-- the event loop fires a `$setTimeout` callback: `$awakeGoroutines--` goroutines.js:211 -/
+theorem GInv.fireUser {s : State} (h : GInv s) (id c : Nat) (hm : (id, TimerKind.closeChan c) ∈ s.timers) :
+    GInv { s with timers := s.timers.erase (id, TimerKind.closeChan c), awake := s.awake - 1 } where
+  own := fun k snd e he => by
+    have := h.own k snd e he
+    exact ⟨this.lt, this.asleep, this.alive, this.mtch⟩
+  nodup := h.nodup
+  sched := h.sched
+  schedNodup := h.schedNodup
+  cur := h.cur
+  awake := by
+    show s.awake - 1 = ((awakeCount s.gs + userTimers (s.timers.erase (id, TimerKind.closeChan c)) : Nat) : Int)
+    have := countP_erase (fun t : Nat × TimerKind => t.2 != TimerKind.runSched) (id, TimerKind.closeChan c) s.timers hm
+    simp only [bne_iff_ne, ne_eq, reduceCtorEq, not_false_eq_true, if_true] at this
+    unfold userTimers
+    rw [h.awake]; unfold userTimers; omega
+  total := h.total
+
+theorem userTimers_erase_runSched (ts : List (Nat × TimerKind)) (id : Nat) :
+    userTimers (ts.erase (id, TimerKind.runSched)) = userTimers ts := by
+  by_cases hm : (id, TimerKind.runSched) ∈ ts
+  · have := countP_erase (fun t : Nat × TimerKind => t.2 != TimerKind.runSched) (id, TimerKind.runSched) ts hm
+    simp only [bne_self_eq_false, Bool.false_eq_true, if_false, Nat.add_zero] at this
+    exact this
+  · rw [List.erase_of_not_mem hm]
+
+theorem GInv.flags {s : State} (h : GInv s) (m : Bool) (il : Bool) : GInv { s with mainFinished := m, inLoop := il } where
+  own := fun k snd e he => by
+    have := h.own k snd e he
+    exact ⟨this.lt, this.asleep, this.alive, this.mtch⟩
+  nodup := h.nodup
+  sched := h.sched
+  schedNodup := h.schedNodup
+  cur := h.cur
+  awake := h.awake
+  total := h.total
+
+/-! ### pushing an entry onto one queue of one channel -/
+
+/-- channel `x` is channel `c` of `cs` with `e0` pushed (or swallowed) on queue `snd` -/
+structure Pushed (cs : List Chan) (c : Nat) (snd : Bool) (e0 : Entry) (x : Chan) : Prop where
+  q : (if snd then x.sendQ else x.recvQ) = entsC cs c snd ∨ (if snd then x.sendQ else x.recvQ) = entsC cs c snd ++ [e0]
+  other : (if snd then x.recvQ else x.sendQ) = entsC cs c (!snd)
+
+theorem pushed_send (cs : List Chan) (c : Nat) (e0 : Entry) :
+    Pushed cs c true e0 { cs.getD c Chan.nil with sendQ := pushQ (cs.getD c Chan.nil).isNil (cs.getD c Chan.nil).sendQ e0 } := by
+  refine ⟨?_, rfl⟩
+  simp only [if_true, pushQ, entsC]; split
+  · exact Or.inl rfl
+  · exact Or.inr rfl
+
+theorem pushed_recv (cs : List Chan) (c : Nat) (e0 : Entry) :
+    Pushed cs c false e0 { cs.getD c Chan.nil with recvQ := pushQ (cs.getD c Chan.nil).isNil (cs.getD c Chan.nil).recvQ e0 } := by
+  refine ⟨?_, rfl⟩
+  simp only [Bool.false_eq_true, if_false, pushQ, entsC]; split
+  · exact Or.inl rfl
+  · exact Or.inr rfl
+
+theorem mem_pushed {cs : List Chan} {c : Nat} {snd : Bool} {e0 : Entry} {x : Chan} (hp : Pushed cs c snd e0 x)
+    {k : Nat} {snd' : Bool} {e : Entry} (he : e ∈ entsC (cs.set c x) k snd') :
+    e ∈ entsC cs k snd' ∨ (k = c ∧ snd' = snd ∧ e = e0) := by
+  rw [entsC_set] at he
+  split at he
+  · next hh =>
+    have hk : k = c := hh.1.symm
+    subst hk
+    by_cases hs : snd' = snd
+    · subst hs
+      rcases hp.q with hq | hq
+      · rw [hq] at he; exact Or.inl he
+      · rw [hq] at he
+        rcases List.mem_append.mp he with h1 | h1
+        · exact Or.inl h1
+        · exact Or.inr ⟨rfl, rfl, by simpa using h1⟩
+    · have : snd' = !snd := by cases snd <;> cases snd' <;> simp_all
+      subst this
+      have ho := hp.other
+      cases snd <;> simp_all
+  · exact Or.inl he
+
+theorem nodup_pushed {cs : List Chan} {c : Nat} {snd : Bool} {e0 : Entry} {x : Chan} (hp : Pushed cs c snd e0 x)
+    (hnd : ∀ k snd', ((entsC cs k snd').map key).Nodup) (hfresh : ∀ e ∈ entsC cs c snd, key e ≠ key e0)
+    (k : Nat) (snd' : Bool) : ((entsC (cs.set c x) k snd').map key).Nodup := by
+  rw [entsC_set]
+  split
+  · next hh =>
+    have hk : k = c := hh.1.symm
+    subst hk
+    by_cases hs : snd' = snd
+    · subst hs
+      rcases hp.q with hq | hq
+      · rw [hq]; exact hnd k snd'
+      · rw [hq, List.map_append]
+        refine List.nodup_append.mpr ⟨hnd k snd', by simp, ?_⟩
+        intro a ha b hb
+        obtain ⟨e, he, rfl⟩ := List.mem_map.mp ha
+        have : b = key e0 := by simpa using hb
+        rw [this]; exact hfresh e he
+    · have : snd' = !snd := by cases snd <;> cases snd' <;> simp_all
+      subst this
+      have ho := hp.other
+      have := hnd k (!snd)
+      cases snd <;> simp_all
+  · exact hnd k snd'
+
+/-- the running goroutine blocks in a plain send / receive -/
+theorem GInv.blockPlain {s : State} (h : GInv s) (g : Nat) (hc : s.cur = some g) (b : Blocked) (c : Nat) (snd : Bool)
+    (e0 : Entry) (x : Chan) (hp : Pushed s.chans c snd e0 x) (hg : e0.gid = g) (hm : Match (some b) c snd e0) :
+    GInv (GV.Sched.block (setC s c x) g b) := by
+  obtain ⟨_, hawake, _, _⟩ := h.cur g hc
+  apply h.block g hc b (s.chans.set c x)
+  · intro k snd' e he
+    rcases mem_pushed hp he with h1 | ⟨hk, hs, he0⟩
+    · exact Or.inl h1
+    · subst hk; subst hs; subst he0; exact Or.inr ⟨hg, hm⟩
+  · intro k snd'
+    apply nodup_pushed hp h.nodup _ k snd'
+    intro e he hk
+    have ho := h.own c snd e he
+    have : e.gid = g := by have := congrArg Prod.fst hk; simpa [key, hg] using this
+    have hh := ho.asleep; rw [this, hawake] at hh; cases hh
+
+/-! ### the primitives -/
+
+theorem GInv.fireHead {s : State} (h : GInv s) (c : Nat) (snd : Bool) (e : Entry) (rest : List Entry)
+    (hq : ents s c snd = e :: rest) (x : Chan)
+    (hx : (if snd then x.sendQ else x.recvQ) = rest)
+    (ho : (if snd then x.recvQ else x.sendQ) = entsC s.chans c (!snd)) (w : Wake) :
+    GInv (wakeG (setC s c x) e.gid w (match e.sel with | none => [] | some _ => selectCases s e.gid)) := by
+  have hlt : c < s.chans.length := entsC_lt (k := c) (snd := snd) (e := e) (by show e ∈ ents s c snd; rw [hq]; simp)
+  apply h.fire c snd e rest hq (s.chans.set c x)
+  · rw [entsC_set]; simp [hlt, hx]
+  · intro k' snd' hne
+    rw [entsC_set]; split
+    · next hh =>
+      have hk : k' = c := hh.1.symm
+      subst hk
+      have : snd' = !snd := by cases snd <;> cases snd' <;> simp_all
+      subst this
+      cases snd <;> simp_all
+    · rfl
+
+theorem ents_send (s : State) (c : Nat) : ents s c true = (getC s c).sendQ := by simp [entsC, getC_def]
+theorem ents_recv (s : State) (c : Nat) : ents s c false = (getC s c).recvQ := by simp [entsC, getC_def]
+
+theorem fireRecv_ginv {s : State} (h : GInv s) (c : Nat) (e : Entry) (rq : List Entry)
+    (hq : (getC s c).recvQ = e :: rq) (x : Chan) (hx : x.recvQ = rq) (ho : x.sendQ = (getC s c).sendQ) (v : Nat) (ok : Bool) :
+    GInv (fireRecv (setC s c x) e v ok) := by
+  have hq' : ents s c false = e :: rq := by rw [ents_recv]; exact hq
+  unfold fireRecv
+  cases hsel : e.sel with
+  | none =>
+    have := h.fireHead c false e rq hq' x (by simpa using hx) (by simpa [entsC, getC_def] using ho) (.recv v ok)
+    rw [hsel] at this; exact this
+  | some i =>
+    have := h.fireHead c false e rq hq' x (by simpa using hx) (by simpa [entsC, getC_def] using ho) (.sel i (some (v, ok)))
+    rw [hsel] at this; exact this
+
+theorem fireSend_ginv {s : State} (h : GInv s) (c : Nat) (e : Entry) (sq : List Entry)
+    (hq : (getC s c).sendQ = e :: sq) (x : Chan) (hx : x.sendQ = sq) (ho : x.recvQ = (getC s c).recvQ) (cl : Bool) :
+    GInv (fireSend (setC s c x) e cl) := by
+  have hq' : ents s c true = e :: sq := by rw [ents_send]; exact hq
+  unfold fireSend
+  cases hsel : e.sel with
+  | none =>
+    have := h.fireHead c true e sq hq' x (by simpa using hx) (by simpa [entsC, getC_def] using ho) (.sent cl)
+    rw [hsel] at this; exact this
+  | some i =>
+    have := h.fireHead c true e sq hq' x (by simpa using hx) (by simpa [entsC, getC_def] using ho) (if cl then .sent true else .sel i none)
+    rw [hsel] at this; exact this
+
+theorem doSend_ginv (s : State) (g c v : Nat) (h : GInv s) (hc : s.cur = some g) : GInv (doSend s g c v).1 := by
+  unfold doSend; simp only
+  split
+  · exact h
+  · split
+    · next e rq heq => apply fireRecv_ginv h c e rq heq <;> rfl
+    · split
+      · exact h.setC_same c _ rfl rfl
+      · exact h.blockPlain g hc (.send c v) c true ⟨g, none, v⟩ _ (pushed_send s.chans c _) rfl ⟨rfl, rfl, rfl⟩
+
+theorem recvTail_ginv (s : State) (g c : Nat) (h : GInv s) (hc : s.cur = some g) : GInv (recvTail s g c).1 := by
+  unfold recvTail; simp only
+  split
+  · exact h.setC_same c _ rfl rfl
+  · split
+    · split <;> exact h
+    · exact h.blockPlain g hc (.recv c) c false ⟨g, none, 0⟩ _ (pushed_recv s.chans c _) rfl ⟨rfl, rfl⟩
+
+theorem wakeG_cur (s : State) (g : Nat) (w : Wake) (cases : List Case) : (wakeG s g w cases).cur = s.cur := by
+  unfold wakeG schedule; simp only; split <;> rfl
+
+theorem fireSend_cur (s : State) (e : Entry) (cl : Bool) : (fireSend s e cl).cur = s.cur := by
+  unfold fireSend; split <;> exact wakeG_cur _ _ _ _
+theorem fireRecv_cur (s : State) (e : Entry) (v : Nat) (ok : Bool) : (fireRecv s e v ok).cur = s.cur := by
+  unfold fireRecv; split <;> exact wakeG_cur _ _ _ _
+
+theorem doRecv_ginv (s : State) (g c : Nat) (h : GInv s) (hc : s.cur = some g) : GInv (doRecv s g c).1 := by
+  unfold doRecv; simp only
+  split
+  · next e sq heq =>
+    apply recvTail_ginv
+    · have h1 : GInv (fireSend (setC s c { getC s c with sendQ := sq }) e false) := by
+        apply fireSend_ginv h c e sq heq <;> rfl
+      exact h1.setC_same c _ rfl rfl
+    · show (fireSend _ e false).cur = some g
+      rw [fireSend_cur]; exact hc
+  · exact recvTail_ginv s g c h hc
+
+theorem closeSenders_ginv : ∀ (n : Nat) (s : State) (c : Nat), GInv s → GInv (closeSenders n s c) := by
+  intro n; induction n with
+  | zero => intro s c h; exact h
+  | succ n ih =>
+    intro s c h; unfold closeSenders; simp only
+    split
+    · exact h
+    · next e sq heq => apply ih; apply fireSend_ginv h c e sq heq <;> rfl
+
+theorem closeRecvs_ginv : ∀ (n : Nat) (s : State) (c : Nat), GInv s → GInv (closeRecvs n s c) := by
+  intro n; induction n with
+  | zero => intro s c h; exact h
+  | succ n ih =>
+    intro s c h; unfold closeRecvs; simp only
+    split
+    · exact h
+    · next e rq heq => apply ih; apply fireRecv_ginv h c e rq heq <;> rfl
+
+theorem doClose_ginv (s : State) (c : Nat) (h : GInv s) : GInv (doClose s c).1 := by
+  unfold doClose; simp only
+  split
+  · exact h
+  · split
+    · exact h
+    · exact closeRecvs_ginv _ _ _ (closeSenders_ginv _ _ _ (h.setC_same c _ rfl rfl))
+
+/-! ### `$select` registration -/
+
+structure RegInv (s : State) (g : Nat) (all : List Case) (i : Nat) (cs : List Chan) : Prop where
+  mem : ∀ k snd e, e ∈ entsC cs k snd →
+    e ∈ ents s k snd ∨ (e.gid = g ∧ ∃ j, j < i ∧ e.sel = some j ∧ all.getD j .dflt = caseOf k snd e)
+  nodup : ∀ k snd, ((entsC cs k snd).map key).Nodup
+
+theorem regInv_push {s : State} (h : GInv s) {g : Nat} (hawake : (getG s g).asleep = false) {all : List Case} {i : Nat}
+    {cs : List Chan} (r : RegInv s g all i cs) (c0 : Nat) (snd : Bool) (e0 : Entry) (x : Chan)
+    (hp : Pushed cs c0 snd e0 x) (hg : e0.gid = g) (hs : e0.sel = some i) (hcase : all.getD i .dflt = caseOf c0 snd e0) :
+    RegInv s g all (i + 1) (cs.set c0 x) := by
+  constructor
+  · intro k snd' e he
+    rcases mem_pushed hp he with h1 | ⟨hk, hs', he0⟩
+    · rcases r.mem k snd' e h1 with h2 | ⟨h2, j, hj, h3, h4⟩
+      · exact Or.inl h2
+      · exact Or.inr ⟨h2, j, by omega, h3, h4⟩
+    · subst hk; subst hs'; subst he0
+      exact Or.inr ⟨hg, i, by omega, hs, hcase⟩
+  · intro k snd'
+    apply nodup_pushed hp r.nodup _ k snd'
+    intro e he hk
+    have hk1 : e.gid = g := by have := congrArg Prod.fst hk; simpa [key, hg] using this
+    have hk2 : e.sel = some i := by have := congrArg Prod.snd hk; simpa [key, hs] using this
+    rcases r.mem c0 snd e he with h2 | ⟨_, j, hj, h3, _⟩
+    · have hh := (h.own c0 snd e h2).asleep; rw [hk1, hawake] at hh; cases hh
+    · rw [hk2] at h3; cases h3; omega
+
+theorem registerCases_reg {s : State} (h : GInv s) {g : Nat} (hawake : (getG s g).asleep = false) (all : List Case) :
+    ∀ (rest : List Case) (i : Nat) (cs : List Chan), (∀ j, rest.getD j .dflt = all.getD (i + j) .dflt) →
+    RegInv s g all i cs → RegInv s g all (i + rest.length) (registerCases g rest i cs) := by
+  intro rest; induction rest with
+  | nil => intro i cs _ r; simp only [List.length_nil, Nat.add_zero]; unfold registerCases; exact r
+  | cons c rest ih =>
+    intro i cs hidx r
+    have hidx' : ∀ j, rest.getD j .dflt = all.getD (i + 1 + j) .dflt := by
+      intro j; have := hidx (j + 1); simp only [List.getD_cons_succ] at this; rw [this]; congr 1; omega
+    have h0 : all.getD i .dflt = c := by have := hidx 0; simpa using this.symm
+    have hl : i + (c :: rest).length = i + 1 + rest.length := by simp; omega
+    rw [hl]
+    cases c with
+    | dflt =>
+      apply ih (i + 1) cs hidx'
+      exact ⟨fun k snd e he => by
+        rcases r.mem k snd e he with h2 | ⟨h2, j, hj, h3, h4⟩
+        · exact Or.inl h2
+        · exact Or.inr ⟨h2, j, by omega, h3, h4⟩, r.nodup⟩
+    | recv c0 =>
+      apply ih (i + 1) _ hidx'
+      exact regInv_push h hawake r c0 false ⟨g, some i, 0⟩ _ (pushed_recv cs c0 _) rfl rfl (by rw [h0]; rfl)
+    | send c0 v =>
+      apply ih (i + 1) _ hidx'
+      exact regInv_push h hawake r c0 true ⟨g, some i, v⟩ _ (pushed_send cs c0 _) rfl rfl (by rw [h0]; rfl)
+
+theorem doSelect_ginv (s : State) (g : Nat) (cases : List Case) (pick : Nat) (h : GInv s) (hc : s.cur = some g) :
+    GInv (doSelect s g cases pick).1 := by
+  unfold doSelect
+  generalize scan s cases 0 = r
+  obtain ⟨ready, dsel, thr⟩ := r
+  simp only
+  split
+  · exact h
+  · split
+    · split
+      · exact h
+      · next c _ =>
+        have := doRecv_ginv s g c h hc
+        split
+        · next s1 v ok heq => rw [heq] at this; exact this
+        · exact this
+      · next c v _ =>
+        have := doSend_ginv s g c v h hc
+        split
+        · next s1 heq => rw [heq] at this; exact this
+        · exact this
+    · obtain ⟨_, hawake, _, _⟩ := h.cur g hc
+      have r0 : RegInv s g cases 0 s.chans := ⟨fun k snd e he => Or.inl he, h.nodup⟩
+      have r := registerCases_reg h hawake cases cases 0 s.chans (fun j => by simp) r0
+      apply h.block g hc (.select cases) _ _ r.nodup
+      intro k snd e he
+      rcases r.mem k snd e he with h1 | ⟨h1, j, _, h3, h4⟩
+      · exact Or.inl h1
+      · exact Or.inr ⟨h1, by simp only [Match, h3]; exact h4⟩
 
 end GV.Proofs.SchedInv
